@@ -16,6 +16,8 @@ CONSTANTS N,          \* number of targets
           Upper,      \* also enumerate the naming under which top-level names sort BEFORE hidden ones
           EmitMode,   \* "all" | "diff" (only cases with a model/reference disagreement) | "none"
           Siblings,   \* C25: also enumerate one gc_sibling label
+          Flaws,      \* subset of {"deps", "rev", "sibling"}: model the algorithms as they were BEFORE the recorded repairs
+          Shape,      \* "any" | "chain": only graphs with a chain through two hidden sub-targets of one rule
           MinHidden,  \* at least this many hidden sub-targets
           Focus,      \* "all" | "rev": only the revdeps queries without --hidden (the wide search for the FIFO flaw)
           SliceK, SliceI \* only the declared graphs whose code is SliceI modulo SliceK (1, 0: all of them)
@@ -124,22 +126,30 @@ Genuine(p, a, b, showHidden) == GenuineDir(p, a, b, showHidden) \/ GenuineDir(p,
 \* ---------------- algorithm level: src/query/deps.go
 \* resolved dependencies in the order the code walks them (declared sorted by label, then ProvideFor)
 ProvSeq(t) == LET ds == Sorted(decl[t]) IN [i \in 1..Len(ds) |-> ProvideFor(ds[i], t)]
+\* `done` maps a target to the shallowest level it has been expanded at (Inf: never). With a level limit a target
+\* first reached through a longer path is expanded again when reached at a shallower level (printed once).
+\* "deps" \in Flaws selects the algorithm before the repair (3207b92): the first visit wins whatever its depth.
 RECURSIVE DepsVisit(_, _, _, _, _), DepsLoop(_, _, _, _, _, _)
 DepsVisit(t, st, L, cur, hid) == IF cur = L THEN st ELSE DepsLoop(t, ProvSeq(t), st, L, cur, hid)
 DepsLoop(t, ps, st, L, cur, hid) ==
   IF ps = <<>> THEN st
-  ELSE LET p == Head(ps) IN
-       IF p \in st.done THEN DepsLoop(t, Tail(ps), st, L, cur, hid)     \* shared `done`: first visit wins
+  ELSE LET p == Head(ps)
+           seen == st.done[p] < Inf
+       IN
+       IF seen /\ ("deps" \in Flaws \/ L < 0 \/ st.done[p] <= cur) THEN DepsLoop(t, Tail(ps), st, L, cur, hid)
        ELSE LET shown == hid \/ ~Hidden(p)
-                st1 == [done |-> st.done \cup {p}, out |-> IF shown THEN st.out \cup {p} ELSE st.out]
+                st1 == [done |-> [st.done EXCEPT ![p] = cur], out |-> IF shown THEN st.out \cup {p} ELSE st.out]
                 st2 == IF shown THEN DepsVisit(p, st1, L, cur + 1, hid)
                        ELSE IF Fam(p) = Fam(t) THEN DepsVisit(p, st1, L, cur, hid)
                        ELSE DepsVisit(p, st1, L, cur + 1, hid)
             IN DepsLoop(t, Tail(ps), st2, L, cur, hid)
-AlgoDeps(s, hid, L) == DepsVisit(s, [done |-> {}, out |-> {}], L, 0, hid).out
+AlgoDeps(s, hid, L) == DepsVisit(s, [done |-> [t \in Nodes |-> Inf], out |-> {}], L, 0, hid).out
 
 \* ---------------- algorithm level: src/query/reverse_deps.go
 RevSeq(p) == SelectSeq(Sorted(Nodes), LAMBDA t : p \in res[t])    \* buildRevdeps walks AllTargets() (sorted)
+\* `done` maps a target to the smallest depth it has been queued at (Inf: never); a target is queued again when it
+\* is reached at a smaller depth (label correcting: edges cost 0 or 1 but the queue is FIFO).
+\* "rev" \in Flaws selects the algorithm before the repair (ede9d60): dedup on the first push.
 RECURSIVE RevLoop(_, _, _, _, _), RevInner(_, _, _, _, _, _, _)
 RevLoop(q, done, ret, hid, L) ==
   IF q = <<>> THEN ret ELSE RevInner(Head(q), RevSeq(Head(q).t), Tail(q), done, ret, hid, L)
@@ -150,13 +160,13 @@ RevInner(nx, ts, q, done, ret, hid, L) ==
            go == nx.d < L \/ L = -1
            ret1 == IF go /\ depth > 0
                    THEN (IF hid \/ ~Hidden(t) THEN ret \cup {t} ELSE ret \cup {par[t]}) ELSE ret
-           push == go /\ t \notin done                                          \* dedup on push
+           push == go /\ (done[t] = Inf \/ ("rev" \notin Flaws /\ depth < done[t]))
        IN RevInner(nx, Tail(ts), IF push THEN Append(q, [t |-> t, d |-> depth]) ELSE q,
-                   IF push THEN done \cup {t} ELSE done, ret1, hid, L)
+                   IF push THEN [done EXCEPT ![t] = depth] ELSE done, ret1, hid, L)
 AlgoRev(s, hid, L) ==
   LET kids == IF ~hid /\ ~Hidden(s) THEN Sorted(Members(s) \ {s}) ELSE <<>>   \* pkg map order: model takes sorted
       q0 == <<[t |-> s, d |-> 0]>> \o [i \in 1..Len(kids) |-> [t |-> kids[i], d |-> 0]]
-  IN RevLoop(q0, {s} \cup Members(IF ~hid /\ ~Hidden(s) THEN s ELSE 0), {}, hid, L)
+  IN RevLoop(q0, [t \in Nodes |-> IF t = s \/ t \in ToSet(kids) THEN 0 ELSE Inf], {}, hid, L)
 
 \* ---------------- algorithm level: src/query/somepath.go
 RECURSIVE SPVisit(_, _, _), SPLoop(_, _, _, _)
@@ -228,6 +238,10 @@ SPRec(a, b, sh) ==
   [a |-> a, b |-> b, sh |-> sh, path |-> AlgoSomePath(<<a>>, <<b>>, sh), must |-> MustFind(a, b), may |-> MayFind(a, b)]
 AllSP == {SPRec(e[1], e[2], sh) : e \in Pairs, sh \in BOOLEAN}
 
+\* rule -> ... _x#a -> _x#b -> a visible target of another rule: the edge between the two hidden SIBLINGS costs nothing
+FamilyChain == \E a, b \in Nodes : /\ a # b /\ Hidden(a) /\ par[a] = par[b] /\ b \in Res[a]
+                                   /\ \E y \in Visible : y # par[a] /\ y \in Res[b]
+
 InitQ == /\ phase = 0 /\ decl \in DagsOf(SliceK, SliceI)
          /\ par = NoPar /\ up = FALSE /\ prov = NoProv /\ req = NoReq /\ role = AllLib /\ sib = NoSib
          /\ res = decl /\ aux = <<>> /\ dist = <<>> /\ qs = {} /\ sps = {}
@@ -238,7 +252,7 @@ PickQ == /\ phase = 0 /\ phase' = 1
          /\ \E pc \in ProvChoices : prov' = pc[1] /\ req' = pc[2]
 \* The derived values are computed in steps of their own, from UNPRIMED variables: TLC caches lazily
 \* evaluated operator arguments only outside primed contexts (measured: 50x slower otherwise).
-Derive1 == /\ phase = 1 /\ WellFormed /\ phase' = 2
+Derive1 == /\ phase = 1 /\ WellFormed /\ (Shape = "chain" => FamilyChain) /\ phase' = 2
            /\ UNCHANGED <<input, dist, qs, sps>>
            /\ res' = Res
            /\ aux' = [jf |-> Joined(Res), cp |-> CostPlain, cf |-> CostFam]
@@ -270,7 +284,8 @@ QDiffs == {q \in qs : ~(q.must \subseteq q.algo /\ q.algo \subseteq q.may)}
 \* design-level facts that DO hold of the algorithm models (checked as invariants)
 UpperBound == \A q \in qs : q.algo \subseteq q.may         \* the models never report a target outside the window
 UnlimitedExact == \A q \in qs : q.L = -1 => q.must \subseteq q.algo    \* level -1 misses nothing
-\* NOT true of the models (the recorded flaws): MC_GraphQueries_flaw.cfg expects TLC to refute it
+\* True of the repaired models; NOT of the ones before the repairs: MC_GraphQueries_flaw.cfg (Flaws = {"deps", "rev"})
+\* expects TLC to refute it
 AllInWindow == \A q \in qs : q.must \subseteq q.algo
 NoHiddenExactWindow ==    \* without hidden targets the three readings coincide: the window is a single set
   (\A t \in Nodes : ~Hidden(t)) => \A q \in qs : q.must = q.may
@@ -343,7 +358,10 @@ GcSafe(removed, srcsProposed) == removed \cap MustKeep = {} /\ srcsProposed \cap
 \* ---------------- algorithm level: src/gc/gc.go targetsToRemove (no filter)
 GcSibling(t) == IF sib[t] # 0 THEN sib[t] ELSE t      \* the target whose fate t shares
 RECURSIVE AddTarget(_, _), AddTargets(_, _)
-AddTarget(m, t) == IF t \in m THEN m ELSE AddTargets(m \cup {t}, Sorted(decl[t]) \o Sorted(res[t]))
+\* a kept target keeps the gc_sibling whose fate it shares (repair aa40ece; "sibling" \in Flaws: the algorithm before it)
+AddTarget(m, t) == IF t \in m THEN m
+                   ELSE AddTargets(m \cup {t}, (IF sib[t] # 0 /\ "sibling" \notin Flaws THEN <<sib[t]>> ELSE <<>>)
+                                                \o Sorted(decl[t]) \o Sorted(res[t]))
 AddTargets(m, ts) == IF ts = <<>> THEN m ELSE AddTargets(AddTarget(m, Head(ts)), Tail(ts))
 RECURSIVE PublicDependencies(_)
 PublicDependencies(t) ==        \* a sequence, in DeclaredDependencies() order
@@ -384,9 +402,9 @@ EvalGc == /\ phase = 1 /\ WellFormed /\ phase' = 4
 SpecGc == InitGc /\ [][PickGc \/ EvalGc]_vars
 
 \* design-level: the algorithm never proposes what the property protects, in either mode
-GcModelSafe == (phase = 4 /\ sib = NoSib) => \A q \in qs : GcSafe(q.r.removed, q.r.srcs)
-\* with a gc_sibling label the design is NOT safe (a needed target shares the fate of an unneeded sibling); the
-\* cases are emitted with the model's answer and replayed. What does hold: only labelled targets are affected.
+GcModelSafe == (phase = 4 /\ (sib = NoSib \/ "sibling" \notin Flaws)) => \A q \in qs : GcSafe(q.r.removed, q.r.srcs)
+\* before the repair a gc_sibling label made the design unsafe (a needed target shared the fate of an unneeded
+\* sibling); what held even then: only labelled targets are affected.
 GcSiblingOnly == phase = 4 => \A q \in qs : (\A t \in q.r.removed \cap MustKeep : sib[t] # 0) /\ q.r.srcs \cap SrcProtected = {}
 \* ... and its keep set is closed under dependencies and contains the property's
 GcModelClosed == phase = 4 => \A q \in qs : MustKeep \subseteq q.r.keep /\ Closure(DepsOf, q.r.keep) = q.r.keep
